@@ -307,7 +307,23 @@ func c13Messages(e *Env) {
 			v := g.Value(t)
 			rb, toks, rerr := e.C.EncodeTok(t, val.Clone(v))
 			lb, lerr, p := EncodeFresh(val.Clone(v))
-			if rerr != nil || lerr != nil || p != nil || len(rb) != len(lb) {
+			if rerr != nil || lerr != nil || p != nil {
+				continue
+			}
+			if len(rb) != len(lb) {
+				// the renderings differ in length: C13's business only if the FIRST divergence falls into a
+				// fixed-width text token (a field that emitted more or fewer than its N bytes), otherwise C02's
+				d := 0
+				for d < len(rb) && d < len(lb) && rb[d] == lb[d] {
+					d++
+				}
+				for ti, tk := range toks {
+					last := ti == len(toks)-1
+					if tk.Cat == "text" && tk.W > 0 && isFixSite(e, tk.Site) && ((d >= tk.Off && d < tk.Off+tk.W) || (d == tk.Off+tk.W && (last || toks[ti+1].Off > d || d == len(rb)))) {
+						r.Violate("C13/message-field-width/"+t.QName, "C13/message-field-width/"+t.QName, map[string]any{"type": t.QName, "case": ci, "field": tk.Path, "pinned_width": tk.W, "library_bytes_total": len(lb), "model_bytes_total": len(rb), "first_difference_at": d, "library_from_field_start": val.Hex(lb[min(tk.Off, len(lb)):], 80), "model_field": val.Hex(rb[tk.Off:tk.Off+tk.W], 80), "value": val.Summary(v, 300)})
+						break
+					}
+				}
 				continue
 			}
 			evals++
